@@ -199,7 +199,7 @@ SortRuleOK(rule) == IF cx.gen THEN rule \in {0, 1, 2, 4, 5, 6} ELSE rule \in {0,
 PrefixOK(e) ==
     \A j \in 1 .. Len(e.cdm) :
         LET row == e.cdm[j] IN
-        row[2] = MinI(row[1], e.ncol) /\ QLe(row[3], QEPS(cx.ty) + 64)
+        row[2] = MinI(row[1], e.ncol) /\ QLe(row[3], QEPS(cx.ty) + 96 + cx.qcond)
 
 SameDig(a, b) == a[1] = b[1] /\ a[2] = b[2] /\ a[3] = b[3]
 
@@ -209,7 +209,8 @@ EvObs(e) ==
         always == If(e.fin = 1, "AllFinite") \cup If(e.bad = 0, "OpArgsValid") \cup If(e.nrow = cx.n, "RowsEqN")
                   \cup If(e.nval = e.ncol, "ValsEqCols") \cup If(e.nval <= cx.nev, "CountLeNev")
                   \cup If(PrefixOK(e), "PrefixColumns")
-                  \cup If(e.nops = e.t - e.probe, "OpsEqTrue")
+                  \* after a call that returned normally (an exception from the B side may follow a completed A application)
+                  \cup If(~okret \/ e.nops = e.t - e.probe, "OpsEqTrue")
         before == IF cx.ncomp = 0 THEN If(e.info = 1 /\ e.nval = 0 /\ e.ncol = 0, "NotComputedBefore") ELSE {}
         comp == IF after = "compute" /\ okret
                 THEN If(Len(cx.call.cend) = 4 /\ cx.call.cend[1] = e.nval, "RetEqSizes")
@@ -234,7 +235,8 @@ Idx(seq) == 1 .. Len(seq)
 EvMFac(e) ==
     \* rounding errors accumulate with every implicit restart (V <- V Q): the bound grows linearly in the
     \* number of restarts performed on this factorization
-    LET bnd == QC_KRY + cx.qn + QEPS(cx.ty) + QLog2Up(s.restarts + 1) IN
+    \* in the generalized modes the B-inner product and the factorized matrix contribute their condition number (qcond = 0 otherwise)
+    LET bnd == QC_KRY + cx.qn + QEPS(cx.ty) + QLog2Up(s.restarts + 1) + cx.qcond IN
     Res(s, If(e.shape = 1, "FacShape")
            \cup (IF e.shape = 1 THEN
                    If(e.fin = 1, "FacFinite")
